@@ -227,10 +227,11 @@ def run(ctx):
         return
     q = ctx.quick()
     rnd = random.Random(ctx.seed)
-    models(ctx)
+    if not os.environ.get("VERIF_C15_SKIP_MODELS"):      # development aid only (mutant runs): the models do not depend on the code
+        models(ctx)
 
     # 1. datagrams: TLC-generated families + seeded random ones, each answered to its own lookup
-    gens = ctx.tlc_gen("Dns", "Gen_DnsReply.tla", "Gen_DnsReply_quick.cfg" if q else "Gen_DnsReply_thorough.cfg", timeout=1200)
+    gens = ctx.tlc_gen("Dns", "Gen_DnsReply.tla", "Gen_DnsReply_quick.cfg" if q else "Gen_DnsReply_thorough.cfg", timeout=1200, env=TLC_ENV)
     pools = {}
     for g in gens:
         pools.setdefault(g["cls"], []).append(g)
